@@ -324,12 +324,12 @@ def collect_inv(chk, results, summary_re, fails, known_seen, label):
 def invariants(chk, binp, thorough):
     fails, known_seen = [], []
     parts = C.NPROC
-    per = 24 if thorough else 3
+    per = 60 if thorough else 3
     res = run_parts(binp, [["c16", "inv", "--seed", chk.seed, "--per", per, "--part", p, "--parts", parts] for p in range(parts)])
     tot = collect_inv(chk, res, r"inv-summary ", fails, known_seen, "corpus_invariants")
     if tot.get("fonts", 0) < 400:
         fails.append({"what": "corpus-not-covered", "fonts": tot.get("fonts", 0), "no_input": True})
-    n, pg = (800, 16) if thorough else (120, 8)
+    n, pg = (2400, 16) if thorough else (120, 8)
     res = run_parts(binp, [["c16", "gen", "--seed", chk.seed + 7919 * p, "--n", max(1, n // parts), "--per", pg] for p in range(parts)])
     collect_inv(chk, res, r"gen-summary ", fails, known_seen, "generated_gpos_kern_invariants")
     return fails, known_seen
@@ -365,7 +365,7 @@ def run(chk):
     if not ok:
         broken.append("hook-build-failed: " + blog[-600:])
     else:
-        d1, f1 = correspondence(chk, binp, 200 if thorough else 48, 100 if thorough else 40)
+        d1, f1 = correspondence(chk, binp, 400 if thorough else 48, 100 if thorough else 40)
         dis += d1
         fails += f1
         # overflow-checked + debug-assertion build: same cases judged the same way (a panic is a failure);
@@ -387,16 +387,17 @@ def run(chk):
             chk.note("known_entry_stale", "the witness of class %s no longer fails: remove the known: line" % KNOWN_CLS)
             C.log("C16: KNOWN_FINDINGS entry %s is stale (witness no longer fails)" % KNOWN_CLS)
     chk.note("correspondence_disagreements", len(dis))
-    chk.note("known_class_hits", len(known_seen))
+    nknown = sum(int(chk.notes.get(k, {}).get("known", 0)) for k in ("corpus_invariants", "generated_gpos_kern_invariants")) + (1 if known_seen else 0)
+    chk.note("known_class_hits", nknown)
     # ---- verdict
     if known_seen:
         if chk.is_known(KNOWN_CLS):
             chk.known_finding(KNOWN_CLS, "set_not_found_variation_selector_glyph(g) with g > 0xFFFF is emitted verbatim as a glyph id "
-                              "(%d hits; e.g. %s)" % (len(known_seen), json.dumps(known_seen[0])[:300]))
+                              "(%d hits; e.g. %s)" % (nknown, json.dumps(known_seen[0])[:300]))
         else:
             k = known_seen[0]
             chk.violation("glyph-id-over-0xFFFF", {"class": KNOWN_CLS, "font": k["font"], "req": k["req"], "nf": k["nf"],
-                                                   "what": k["which"], "hits": len(known_seen)})
+                                                   "what": k["which"], "hits": nknown})
     real = [f for f in fails if not f.get("no_input")]
     for f in real[:5]:
         chk.violation(f["what"], f)
@@ -422,7 +423,7 @@ def run(chk):
 
 def replay(chk, path):
     body = json.load(open(path))
-    print(json.dumps({k: (v if k not in ("fonthex",) else v[:40] + "...") for k, v in body.items()}, indent=1)[:4000])
+    print(json.dumps({k: (str(v)[:40] + "..." if k in ("fonthex", "pred") and v else v) for k, v in body.items()}, indent=1)[:4000])
     ok, binp, _ = C.cargo_build("release", hooks=True)
     if not ok:
         print("harness build failed")
